@@ -424,6 +424,193 @@ pub fn run_case(ctx: &Ctx, case: &Case) -> Outcome {
     out
 }
 
+// ------------------------------------------------------------------ key registration races with the key-map snapshot
+// The replication thread registers the id of a new key (keys map + op-log-valid flag) while the declutter thread writes
+// the keys map to disk and marks the log valid. Both run as tasks of the baton scheduler; the yield points are hook
+// H12 (before every step of snapshot_keys, before the two lock acquisitions of generate_key_id).
+
+#[derive(Clone, Debug, Serialize, Deserialize)]
+pub struct RaceCase {
+    /// history before the race (the same steps as the sequential engine)
+    pub prefix: Vec<Step>,
+    pub db: usize,
+    /// keys whose `set` is queued for the replication thread when the race starts (a key never written before gets its
+    /// id during the race)
+    pub keys: Vec<usize>,
+    /// the `snapshot` command is queued before (true) or after the writes
+    pub snapshot_first: bool,
+    pub schedule: Vec<u16>,
+    /// history after the race; every case ends with a kill restart that is judged
+    pub then: Vec<Step>,
+}
+
+fn race_sites(site: &str) -> bool {
+    site.starts_with("snapshot_keys.") || site.starts_with("generate_key_id.")
+}
+
+pub fn race_strategy() -> impl Strategy<Value = RaceCase> {
+    let pre = prop_oneof![
+        4 => (0..5usize).prop_map(|key| Step::Write { db: 0, key }),
+        2 => Just(Step::Snapshot { mask: 1 }),
+        1 => Just(Step::RestartClean),
+        1 => Just(Step::RestartKill),
+        1 => Just(Step::CreateDb { db: 1 }),
+        1 => (0..5usize).prop_map(|key| Step::Write { db: 1, key }),
+    ];
+    let post = prop_oneof![
+        3 => (0..5usize).prop_map(|key| Step::Write { db: 0, key }),
+        2 => Just(Step::Snapshot { mask: 1 }),
+        2 => Just(Step::RestartClean),
+        1 => Just(Step::RestartKill),
+    ];
+    (prop::collection::vec(pre, 0..5), prop::collection::vec(0..5usize, 1..4), any::<bool>(), prop::collection::vec(prop_oneof![2 => Just(0u16), 3 => any::<u16>()], 0..14), prop::collection::vec(post, 0..3))
+        .prop_map(|(prefix, keys, snapshot_first, schedule, then)| RaceCase { prefix, db: 0, keys, snapshot_first, schedule, then })
+}
+
+fn exec_race(w: &mut World, c: &RaceCase, switches: &mut u64, yields: &mut u64, new_key_in_race: &mut bool) -> Option<(String, String)> {
+    let db = c.db;
+    let mut node = w.node.take().unwrap();
+    let mut s = Session::new();
+    s.send(&node, &format!("use-db {} t{}", dbn(db), db));
+    node.pump();
+    {
+        let km = node.dbs.keys_map.read().unwrap();
+        *new_key_in_race = c.keys.iter().any(|k| !km.contains_key(&format!("{}_k{}", dbn(db), k)) && !km.contains_key(&format!("k{}", k)));
+    }
+    if c.snapshot_first {
+        w.admin.send(&node, &format!("snapshot false {}", dbn(db)));
+    }
+    for k in c.keys.iter() {
+        s.send(&node, &format!("set k{} w", k));
+    }
+    if !c.snapshot_first {
+        w.admin.send(&node, &format!("snapshot false {}", dbn(db)));
+    }
+    let dbs = node.dbs.clone();
+    let dir = w.dir.clone();
+    let nm = std::sync::Arc::new(std::sync::Mutex::new(node));
+    let nm2 = nm.clone();
+    let tasks: Vec<Box<dyn FnOnce(&crate::sched::TaskCtx) -> () + Send>> = vec![
+        Box::new(move |_t| {
+            // the replication thread: one poll works the queue off
+            let mut n = nm2.lock().unwrap();
+            n.pump_rep();
+        }),
+        Box::new(move |_t| {
+            // the declutter thread's step
+            crate::node::use_dir(&dir);
+            nundb::disk_ops::snapshot_all_pendding_dbs(&dbs);
+        }),
+    ];
+    let res = crate::sched::run(tasks, &c.schedule, race_sites);
+    let (results, info) = match res {
+        Ok(x) => x,
+        Err(e) => {
+            eprintln!("C16: scheduler watchdog: {}", e);
+            std::process::exit(2);
+        }
+    };
+    *switches += info.switches;
+    *yields += info.yields;
+    let mut node = match std::sync::Arc::try_unwrap(nm) {
+        Ok(m) => m.into_inner().unwrap_or_else(|e| e.into_inner()),
+        Err(_) => {
+            eprintln!("C16: a race task kept the node");
+            std::process::exit(2);
+        }
+    };
+    for (i, r) in results.iter().enumerate() {
+        if let Err(e) = r {
+            w.node = Some(node);
+            return Some((format!("C16|race-task-panicked|{}", if i == 0 { "replication-thread" } else { "declutter-step" }), e.clone()));
+        }
+    }
+    node.pump();
+    let _ = s.disconnect(&node);
+    node.pump();
+    let q = format!("{}#{}", dbn(db), w.inc[db]);
+    let mut cands: Vec<(String, String, u8)> = c.keys.iter().map(|k| (q.clone(), format!("k{}", k), 0u8)).collect();
+    cands.push((q.clone(), "$connections".to_string(), 0));
+    cands.push((q, String::new(), 3));
+    w.node = Some(node);
+    absorb(w, &cands, false);
+    ids_unique(w.node.as_ref().unwrap())
+}
+
+pub fn run_race(ctx: &Ctx, c: &RaceCase) -> Outcome {
+    let dir = ctx.fresh_dir();
+    let node = Node::boot_single(&dir);
+    let admin = connect_admin(&node);
+    let mut w = World { node: Some(node), dir: dir.clone(), admin, expected: BTreeMap::new(), seen: BTreeSet::new(), dbs: BTreeSet::new(), created_total: 0, partial_load_then_create: false, restarts: 0, kept_logs: 0, discarded_logs: 0, known_hits: BTreeMap::new(), lost: BTreeSet::new(), inc: [0; 4] };
+    let mut fail: Option<(String, String)> = None;
+    let (mut switches, mut yields, mut new_key) = (0u64, 0u64, false);
+    let mut steps: Vec<Step> = vec![Step::CreateDb { db: 0 }, Step::Write { db: 0, key: 0 }, Step::Snapshot { mask: 1 }];
+    steps.extend(c.prefix.iter().cloned());
+    for (i, st) in steps.iter().enumerate() {
+        if let Some((sig, d)) = exec(ctx, &mut w, st) {
+            fail = Some((sig, format!("prefix step {} {:?}: {}", i, st, d)));
+            break;
+        }
+    }
+    if fail.is_none() && !w.dbs.contains(&c.db) {
+        // (the database was not snapshotted before a restart of the prefix: it is gone, make it again)
+        if let Some((sig, d)) = exec(ctx, &mut w, &Step::CreateDb { db: c.db }) {
+            fail = Some((sig, d));
+        }
+    }
+    if fail.is_none() {
+        if let Some((sig, d)) = exec_race(&mut w, c, &mut switches, &mut yields, &mut new_key) {
+            fail = Some((format!("{}|after-a-race-of-key-registration-and-key-map-snapshot", sig), format!("race: {}", d)));
+        }
+    }
+    if fail.is_none() {
+        for (i, st) in c.then.iter().chain(std::iter::once(&Step::RestartKill)).enumerate() {
+            if let Some((sig, d)) = exec(ctx, &mut w, st) {
+                fail = Some((format!("{}|after-a-race-of-key-registration-and-key-map-snapshot", sig), format!("step {} {:?} after the race: {}", i, st, d)));
+                break;
+            }
+        }
+    }
+    let (kept, disc) = (w.kept_logs, w.discarded_logs);
+    let known_hits = w.known_hits.clone();
+    drop(w);
+    ctx.drop_dir(&dir);
+    let nontrivial = new_key && switches > 0;
+    let mut out = Outcome::ok(nontrivial);
+    if new_key {
+        out.classes.push("race-registers-a-new-key");
+    }
+    if nontrivial {
+        out.classes.push("race-registers-a-new-key-with-a-context-switch");
+    }
+    out.counters.push(("race_context_switches", switches));
+    out.counters.push(("race_yield_points", yields));
+    out.counters.push(("restarts_log_kept", kept as u64));
+    out.counters.push(("restarts_log_discarded", disc as u64));
+    out.known_image_hits = known_hits;
+    out.fail = fail;
+    out
+}
+
+fn race_small() -> Vec<RaceCase> {
+    // every schedule with at most two pre-emptions of the smallest races: one or two new keys, snapshot queued first/last,
+    // with and without an invalid flag before the race (a key registered since the last key-map snapshot)
+    let scheds = crate::sched::bounded_schedules(10, 2);
+    let mut out = vec![];
+    for prefix in [vec![], vec![Step::Write { db: 0, key: 1 }]] {
+        for keys in [vec![2usize], vec![2, 3], vec![0, 2]] {
+            for snapshot_first in [true, false] {
+                for then in [vec![], vec![Step::RestartClean], vec![Step::Write { db: 0, key: 4 }, Step::Snapshot { mask: 1 }]] {
+                    for s in scheds.iter() {
+                        out.push(RaceCase { prefix: prefix.clone(), db: 0, keys: keys.clone(), snapshot_first, schedule: s.clone(), then: then.clone() });
+                    }
+                }
+            }
+        }
+    }
+    out
+}
+
 fn fixed() -> Vec<Case> {
     use Step::*;
     let mut out = vec![];
@@ -650,6 +837,13 @@ pub fn run(ctx: &Ctx, rep: &mut Report) {
         explore_with(ctx, rep, "histories", n, 600, case_strategy(), |c| run_case(ctx, c));
     }
     if rep.failures.is_empty() {
+        enumerate(ctx, rep, "key-registration-races-with-the-key-map-snapshot-at-most-2-preemptions", race_small().into_iter(), |c| run_race(ctx, c));
+    }
+    if rep.failures.is_empty() {
+        let n = ctx.amount(3000, 80_000);
+        explore_with(ctx, rep, "key-registration-races-with-the-key-map-snapshot", n, 400, race_strategy(), |c| run_race(ctx, c));
+    }
+    if rep.failures.is_empty() {
         if std::path::Path::new(&binary_path()).exists() {
             enumerate(ctx, rep, "real-binary-cross-check-fixed", fixed().into_iter().filter(|c| c.crash_at.is_some()), |c| run_cross_case(ctx, c));
             if rep.failures.is_empty() {
@@ -666,6 +860,9 @@ pub fn replay(ctx: &Ctx, engine: &str, case: &J) -> Result<Option<(String, Strin
     crate::interpose::virtual_clock(true);
     if engine.starts_with("real-binary-cross-check") {
         return replay_guarded::<Case>(ctx, case, |c| run_cross_case(ctx, c));
+    }
+    if engine.starts_with("key-registration-races") {
+        return replay_guarded::<RaceCase>(ctx, case, |c| run_race(ctx, c));
     }
     replay_guarded::<Case>(ctx, case, |c| run_case(ctx, c))
 }
